@@ -996,7 +996,9 @@ func (s *Sim) Apply(b types.Block, bs consensus.V1BlockSupplement) consensus.App
 	cs, au := consensus.ApplyBlock(prev, b, bs, time.Time{})
 	h := int(cs.Index.Height)
 	s.blockID[h] = b.ID()
-	s.real[SID{MINER, h, 0, 0, 0}] = b.ID().MinerOutputID(0)
+	for j := range b.MinerPayouts {
+		s.real[SID{MINER, h, 0, 0, j}] = b.ID().MinerOutputID(j)
+	}
 	s.real[SID{FOUND, h, 0, 0, 0}] = b.ID().FoundationOutputID()
 	for _, fce := range bs.ExpiringFileContracts {
 		for sid, rid := range s.real {
